@@ -27,6 +27,9 @@ pub fn run(prop: &str, tier: &str, seed: u64) -> i32 {
         "C16" => c16(&run),
         "C19" => c19(&run),
         "C14" => c14(&run),
+        "C10" => c10(&run),
+        "C04" | "C08" => c04_c08(&run, prop),
+        "C09" => c09(&run),
         "C18" | "C20" | "SWEEPALL" => generic_sweep(&run, prop),
         _ => {
             eprintln!("unknown property {prop}");
@@ -159,6 +162,18 @@ pub fn replay_other(run: &Run, kind: &str, case: &J) -> Option<i32> {
         }
         "tt-ops" | "tt-fill" | "tt-generations" => {
             tt::replay(run, case);
+            Some(0)
+        }
+        "session" => {
+            crate::searchchk::replay_session(run, case);
+            Some(0)
+        }
+        "picker" => {
+            let keymap = KeyMap::new();
+            let ctx = make_ctx(run, Mon::default(), &keymap);
+            if let Err(e) = crate::picker::replay(&ctx, case) {
+                println!("replay failed: {e}");
+            }
             Some(0)
         }
         "clock" | "movetime" => {
@@ -342,6 +357,10 @@ fn c16(run: &Run) -> i32 {
     report::finish(run, s, t, "every position of the sweep families and of F-HEAVY: eval == eval of the colour-mirrored twin, no panic, outside the mate range, between the phase-24 and phase-0 evaluations; the blend itself on a lattice of (mg, eg, phase) triples; pack/unpack round trip", true)
 }
 
+pub fn advertised_hash_min() -> usize {
+    advertised_hash_range().0
+}
+
 fn advertised_hash_range() -> (usize, usize) {
     let (mut min, mut max) = (1usize, 1024usize);
     for l in crate::checks::uci_option_lines() {
@@ -428,4 +447,64 @@ fn c14(run: &Run) -> i32 {
     }
     run.assume("part 2 of the property (a search returns before the clock runs out) is explored with a virtual clock in the search-session checks; real wall-clock time cannot be enumerated");
     report::finish(run, s, t, "every tuple of the clock grid through TimeStrategy::new: hard <= (remaining - overhead)/2 (+1 ms tolerance for the f32 arithmetic), soft <= hard; movetime used as given", true)
+}
+
+fn c10(run: &Run) -> i32 {
+    let keymap = KeyMap::new();
+    let mut mon = Mon::default();
+    // c10 = deviations + 1
+    mon.c10 = if run.quick() { 3 } else { 4 };
+    let ctx = make_ctx(run, mon, &keymap);
+    let mut plan = base_plan(run.quick());
+    plan.rights = false;
+    plan.reach_depth_small = if run.quick() { 2 } else { 3 };
+    plan.reach_depth_big = if run.quick() { 1 } else { 2 };
+    plan.mat1 = if run.quick() { vec![] } else { vec![vec![(Color::B, Kind::Q)], vec![(Color::W, Kind::P)]] };
+    plan.promo = false;
+    let (s, _t) = sweep::run_plan(&ctx, &plan);
+    let streams = run.counter("picker_streams");
+    for f in ["picker_positions_with_previous_move", "picker_positions_with_captures_and_quiets", "picker_hash_move_first"] {
+        run.require(f, 50);
+    }
+    run.sample(J::obj(vec![("position", J::s("rnbqkb1r/ppp1pppp/5n2/3p3Q/4P3/8/PPPP1PPP/RNB1KBNR w KQkq - 2 3")), ("config", J::s("hash=- killers_pushed=[g1f3,b1c3] counter=- history=0 ply=0"))]));
+    run.distinct_outcome("multiset-equal".into());
+    run.distinct_outcome("loud-subset".into());
+    run.assume("killer slots are filled through KillersTable::try_push and the counter move through CountermoveTable::set keyed by the real previous move, so only reachable table states are explored; history scores: zero / ascending / descending");
+    run.assume("the order of the stream is not asserted (the property speaks about the set)");
+    report::finish(run, s, streams.max(s), &format!("positions with a previous move (BFS from {} seeds) x every configuration of hash move / killers / counter move / history / ply with at most {} simultaneous deviations from the default; the stream of MovePicker::next as a multiset equals the reference legal moves; captures-only stream duplicate-free, legal, containing all captures and queen promotions", families::seeds().len(), mon.c10 - 1), true)
+}
+
+fn c04_c08(run: &Run, prop: &str) -> i32 {
+    use crate::searchchk::{self, Focus};
+    let focus = if prop == "C04" { Focus::C04 } else { Focus::C08 };
+    let (s, t) = searchchk::c04_c08(run, focus);
+    run.require("searches", 1000);
+    run.require("info_lines", 1000);
+    if prop == "C08" {
+        run.require("mate_announcements", 100);
+    }
+    run.sample(J::obj(vec![("session", J::s("hash 1 MB, generation 254: search [8/6k1/8/2R5/8/1K6/3Q1p2/8 w - - 1 25] depth 1, 2, ... 6, 5, ... 1 on one persistent state"))]));
+    run.sample(J::obj(vec![("session", J::s("K+Q v K, white king b1, black king h8: every queen square x both sides, depth 6, searched one after the other on one table starting at generation 255"))]));
+    for i in 0..3 {
+        run.distinct_outcome(format!("family{i}"));
+    }
+    run.assume("checked build: overflow checks and debug assertions on, every search inside catch_unwind; non-termination = more than 60 M nodes (deterministic budget reported through hook H1)");
+    run.assume("oracle: refchess legal moves / checkmate; the same sessions at depth limits only are replayed on the optimised binary by C13/C17's black-box runs");
+    let rule = if prop == "C04" {
+        "every search of every enumerated session: terminates within the node budget, does not panic, returns a move that is legal in the searched position and leaves the given position untouched"
+    } else {
+        "every info line of every search of every enumerated session: principal variation non-empty and legal move by move, depths 1,2,3,... without gaps and within the limit, mate announcements with exactly the matching number of plies ending in checkmate of the announced side"
+    };
+    report::finish(run, s, t, rule, true)
+}
+
+fn c09(run: &Run) -> i32 {
+    let (s, t) = crate::searchchk::c09(run);
+    run.require("polls_of_unperturbed_searches", 30);
+    run.sample(J::obj(vec![("session", J::s("search [kiwipete] depth 7 with the stop flag true from poll k (k = 1..P), then depth 4 of the same and of a child position on the same tables"))]));
+    for i in 0..3 {
+        run.distinct_outcome(format!("family{i}"));
+    }
+    run.assume("the stop flag is behind the seam of hook H1 (is_force_stopped); the polling frequency is the production one");
+    report::finish(run, s, t, "for each (position, limit): every index k of the poll at which the stop is first observed; after the first true observation no further node visit and no further poll; legal move returned; input position untouched; follow-up searches on the same tables return legal moves and legal lines", true)
 }
